@@ -74,7 +74,7 @@ func (f *FieldUpdater) Merge(dst, src proto.Message) {
 
 	var writableMask fmutils.NestedMask
 	if f.writableFields != nil {
-		writableMask = fmutils.NestedMaskFromPaths(f.writableFields.Paths)
+		writableMask = fmutils.NestedMaskFromPaths(normalPaths(f.writableFields.Paths))
 	}
 
 	// The filters below clear fields in place. Work on a copy: src belongs to the caller, who may go on using it, and
@@ -99,7 +99,7 @@ func (f *FieldUpdater) Merge(dst, src proto.Message) {
 		return
 	}
 
-	nestedMask := fmutils.NestedMaskFromPaths(mask.GetPaths())
+	nestedMask := fmutils.NestedMaskFromPaths(normalPaths(mask.GetPaths()))
 	nestedMask.Filter(src)
 	proto.Merge(dst, src)
 
@@ -107,10 +107,19 @@ func (f *FieldUpdater) Merge(dst, src proto.Message) {
 	pruneEmpty(dst, src, nestedMask)
 
 	if f.resetMask != nil {
-		fmutils.Prune(dst, f.resetMask.Paths)
+		fmutils.Prune(dst, normalPaths(f.resetMask.Paths))
 	}
 
 	return
+}
+
+// normalPaths returns paths without those that are covered by another one, or are repeated.
+// A field mask names the union of its paths, while fmutils narrows a path by one it covers: "a" next to "a.b" selects
+// only a.b there.
+func normalPaths(paths []string) []string {
+	mask := &fieldmaskpb.FieldMask{Paths: append([]string(nil), paths...)}
+	mask.Normalize()
+	return mask.Paths
 }
 
 func pruneEmpty(dst, src proto.Message, mask fmutils.NestedMask) {
